@@ -46,7 +46,16 @@ def o_agc(spec, r, extra):
     if r['status'] != 'ok' or r['ret'] == H_THROW: return True, f"agc: {r['status']} / threw"
     g = r['outs'][2][:spec[6][1]]; lim = 10 ** (spec[1][1] / 20)
     return max(g) > lim * (1 + 1e-9), f"Agc(max_gain={spec[1][1]} dB): applied gains {g} exceed the limit {lim!r}"
-ORACLES = {'curve': o_curve, 'cstep': o_cstep, 'agc': o_agc}
+def o_gstep(spec, r, extra):
+    fs, T, ta, tr, th, lg0, cA0, x = [spec[i][1] for i in range(8)]
+    if r['status'] != 'ok' or r['ret'] == H_THROW: return True, f"gate step: {r['status']} / threw"
+    o = r['outs'][0]; tlin = 10 ** (T / 20); gc = 1.0 if abs(x) >= tlin else 0.0; tH = int(math.floor(th * fs)); cA0 = sgn(cA0, 32)
+    wa = math.exp(-math.log(9) / (fs * ta)) if ta > 0 else 0.0; wr = math.exp(-math.log(9) / (fs * tr)) if tr > 0 else 0.0
+    if gc == lg0: exp = lg0
+    elif gc < lg0: exp = lg0 if cA0 < tH else wa * lg0 + (1 - wa) * gc
+    else: exp = wr * lg0 + (1 - wr) * gc
+    return abs(o[2] - exp) > 1e-9, f"NoiseGate(fs={fs}, attack={ta}, release={tr}, hold={th}) one sample x={x!r} from gain {lg0} (hold counter {cA0}): new gain {o[2]!r}; the one-pole step with a = exp(-ln 9/(fs*time)) gives {exp!r}"
+ORACLES = {'curve': o_curve, 'cstep': o_cstep, 'agc': o_agc, 'gstep': o_gstep}
 
 def Lx(m, x): return m.lower(x)
 
@@ -130,6 +139,10 @@ def job_smooth(res, kind, R, W, ta, tr):
         gc = z_curve(kind, T, R, z3.RealVal(Fraction(W)), L) - L if W > 0 else (z3.If(L >= T, (T + ((L - T) / R if kind == 'comp' else 0)) - L, z3.RealVal(0)))
         claims = [(z3.And(gs1 <= z3.If(G0 >= gc, G0, gc) + TOL, gs1 >= z3.If(G0 <= gc, G0, gc) - TOL), 'smoothed gain stays between the previous value and the target'), (gs1 <= TOL, 'smoothed gain stays <= 0 dB, so the linear gain 10^(g/20) is in (0, 1]')]
         if (ta == 0.0 and tr == 0.0): claims.append((zabs(gs1 - gc) <= TOL, 'zero attack and release: the applied gain is the static curve'))
+        # configured time constants: one-pole step new = a*old + (1-a)*target with a = exp(-ln 9 / (fs * time)) (10-90 % rise in `time` seconds), attack when the gain falls, release when it rises
+        wq = lambda t_: z3.RealVal(Fraction(math.exp(-math.log(9) / (fs * t_)))) if t_ > 0 else z3.RealVal(0)
+        claims.append((z3.And(z3.Implies(gc < G0, zabs(gs1 - (wq(ta) * G0 + (1 - wq(ta)) * gc)) <= TOL), z3.Implies(gc > G0, zabs(gs1 - (wq(tr) * G0 + (1 - wq(tr)) * gc)) <= TOL)),
+                       f'the state moves by the one-pole step of the configured attack ({ta} s) / release ({tr} s) time at fs = {fs}'))
         # structure of the outputs: gain = pow(10, gs/20) and out = x * gain (same terms)
         struct_ok = isF(o[0]) and o[0].op == 'call' and o[0].args[0] == 'pow' and isF(o[1]) and o[1].op == 'fmul' and (o[1].args[0] is o[0] or o[1].args[1] is o[0])
         claims.append((z3.BoolVal(bool(struct_ok)), 'gain output is pow(10, g/20) of the smoothed gain and out = x * gain'))
@@ -155,6 +168,7 @@ def job_gate(res, th, ta, tr):
         cA = bvsym('cA', 32); m.assume(z3.And(LG >= 0, LG <= 1, cA.e >= 0, cA.e < 1000)); o = m.alloc_doubles([0.0] * 4, 'o')
         return [fs, -20.0, ta, tr, th, fsym('lg0'), cA, fsym('x'), o], (o, cA)
     label = f'NoiseGate hold={th}s attack={ta} release={tr}'
+    WQ = lambda t_: z3.RealVal(Fraction(math.exp(-math.log(9) / (fs * t_)))) if t_ > 0 else z3.RealVal(0)
     for p in explore(mod, '@h_gate_step', setup, max_paths=200):
         if p.out != 'ret': res.inc(f'{label}: path {p.out} {p.err}'); continue
         res.absorb(p.m); op, cA = p.ctx; o = p.m.read_doubles(op, 4); L1 = p.m.lower(o[2]) if isF(o[2]) else z3.RealVal(Fraction(o[2])); g = p.m.lower(o[0]) if isF(o[0]) else z3.RealVal(Fraction(o[0]))
@@ -164,11 +178,19 @@ def job_gate(res, th, ta, tr):
         claims = [(z3.And(L1 >= -TOL, L1 <= 1 + TOL, g == L1), 'gain stays in [0, 1] and the reported gain is the new state'),
                   (z3.And(L1 <= z3.If(LG >= gcv, LG, gcv) + TOL, L1 >= z3.If(LG <= gcv, LG, gcv) - TOL), 'gain stays between the previous gain and the target (open = 1 / closed = 0)'),
                   (z3.Implies(z3.And(gcv < LG, cA0 < tH), z3.And(L1 == LG, cA1 == cA0 + 1)), 'closing is held for hold_time samples: gain unchanged, hold counter advances'),
-                  (z3.Implies(gcv > LG, cA1 == 0), 'opening resets the hold counter')]
+                  (z3.Implies(gcv > LG, cA1 == 0), 'opening resets the hold counter'),
+                  (z3.And(z3.Implies(z3.And(gcv < LG, cA0 >= tH), zabs(L1 - (WQ(ta) * LG + (1 - WQ(ta)) * gcv)) <= TOL), z3.Implies(gcv > LG, zabs(L1 - (WQ(tr) * LG + (1 - WQ(tr)) * gcv)) <= TOL)),
+                   f'the gain moves by the one-pole step of the configured attack ({ta} s) / release ({tr} s) time at fs = {fs}')]
         for claim, desc in claims:
             sol = z3.Solver(); sol.set('timeout', 60000); sol.add(*p.m.pc); sol.add(z3.Not(claim)); c = sol.check(); res.queries += 1
             if c == z3.unsat: res.ob(True, 'NRA+BV', f'{label}: path |pc|={len(p.m.pc)}: forall state, x. {desc}')
-            elif c == z3.sat: res.inc(f'{label}: "{desc}" has a model {str(sol.model())[:200]}')
+            elif c == z3.sat:
+                mdl = model_dict(sol); sp = [('i32', fs), ('f64', -20.0), ('f64', ta), ('f64', tr), ('f64', th), ('f64', model_float(mdl, 'lg0', 0.5)), ('i32', model_int(mdl, 'cA')), ('f64', model_float(mdl, 'x', 0.0)), ('pf64', [0.0] * 4)]
+                if not confirm(res, PID, HARNESS, 'h_gate_step', sp, 'i32', 'gstep', ORACLES, 'gate:step', f'{label}: "{desc}" fails', suspect_is_inconclusive=False):
+                    for (lg0, ca, xv) in ((1.0, 1000, 0.0), (0.0, 0, 1.0), (0.4, 1000, 0.0), (0.6, 0, 1.0)):
+                        sp2 = list(sp); sp2[5] = ('f64', lg0); sp2[6] = ('i32', ca); sp2[7] = ('f64', xv)
+                        if confirm(res, PID, HARNESS, 'h_gate_step', sp2, 'i32', 'gstep', ORACLES, 'gate:step', f'{label}: "{desc}" fails (probe state)', suspect_is_inconclusive=(lg0 == 0.6)): break
+                break
             else: res.inc(f'{label}: "{desc}" undecided')
 
 def job_agc(res, n):
@@ -222,10 +244,11 @@ def main(tier, seed):
         jobs.append((f'compressor monotone R={R}', 'monotone', dict(kind='comp', R=R), 1500))
     for wm in ('sym', 'zero'): jobs.append((f'limiter curve {wm}', 'curve', dict(kind='lim', R=1, Wmode=wm), 1500))
     jobs.append(('limiter monotone', 'monotone', dict(kind='lim', R=1), 1500))
-    for (R, W, ta, tr) in ([(5, 0.0, 0.0, 0.0), (3, 6.0, 0.0, 0.0), (5, 4.0, 0.01, 0.05)] if q else [(5, 0.0, 0.0, 0.0), (3, 6.0, 0.0, 0.0), (5, 4.0, 0.01, 0.05), (2, 0.0, 0.02, 0.0), (10, 10.0, 0.0, 0.1)]):
+    for (R, W, ta, tr) in ([(5, 0.0, 0.0, 0.0), (3, 6.0, 0.0, 0.0), (5, 4.0, 0.01, 0.05), (4, 2.0, 0.0144, 0.0237)] if q else [(5, 0.0, 0.0, 0.0), (3, 6.0, 0.0, 0.0), (5, 4.0, 0.01, 0.05), (2, 0.0, 0.02, 0.0), (10, 10.0, 0.0, 0.1)]):
         jobs.append((f'compressor smoothing R={R} W={W}', 'smooth', dict(kind='comp', R=R, W=W, ta=ta, tr=tr), 1500))
-    for (W, ta, tr) in [(0.0, 0.0, 0.0), (4.0, 0.0, 0.05), (2.0, 0.01, 0.02)]: jobs.append((f'limiter smoothing W={W}', 'smooth', dict(kind='lim', R=1, W=W, ta=ta, tr=tr), 1500))
+    for (W, ta, tr) in [(0.0, 0.0, 0.0), (4.0, 0.0, 0.05), (2.0, 0.01, 0.02), (3.0, 0.0144, 0.0237)]: jobs.append((f'limiter smoothing W={W}', 'smooth', dict(kind='lim', R=1, W=W, ta=ta, tr=tr), 1500))
     for th in (0.0, 0.1, 0.2): jobs.append((f'gate hold={th}', 'gate', dict(th=th, ta=0.3, tr=0.2), 1500))
+    jobs.append(('gate fractional-sample times', 'gate', dict(th=0.1, ta=0.144, tr=0.237), 1500)); jobs.append(('gate sub-sample times', 'gate', dict(th=0.0, ta=0.05, tr=0.07), 1500))
     jobs.append(('agc clamp', 'agc', dict(n=3 if q else 4), 1500))
     return run_property(PID, tier, HARNESS, jobs, JOBFNS,
         level_text='The gain computers of Compressor and Limiter run with threshold, knee width and the input sample symbolic (integer ratio enumerated; the level 20*log10(|x|+eps) is an uninterpreted function value, i.e. an '
